@@ -92,9 +92,10 @@ def evaluate(d, a):
                         [l for l in p.stdout.splitlines()
                          if l.startswith('VIOLATION')][:1]):
                     src = l.split('replay=')[1]
-                    if os.path.exists(src):
-                        shutil.copy(src, os.path.join(
-                            dst, f'{c}-{name}-{k}.json'))
+                    tgt = os.path.join(dst, f'{c}-{name}-{k}.json')
+                    if os.path.exists(src) and \
+                            os.path.abspath(src) != os.path.abspath(tgt):
+                        shutil.copy(src, tgt)
         res['caught'] = any(res[c]['rc'] == 1 for c in checks)
         if a.keep and res['confirmed']:
             dst = os.path.join(VERIF, 'seeded', name)
